@@ -32,6 +32,37 @@ class StdHooks(KernelHooks):
             return self.vector_call(it, elem, meth, node, args, this_cell)
         if name.startswith('std::allocator<'):
             return Opaque('allocator')
+        if name.startswith('__gnu_cxx::operator==') or name.startswith('__gnu_cxx::operator!='):
+            a = it.lval(args[0]).value if (args[0].get('lv') or args[0].get('xv')) else it.eval(args[0])
+            b = it.lval(args[1]).value if (args[1].get('lv') or args[1].get('xv')) else it.eval(args[1])
+            eq = (a == b)
+            return (1 if eq else 0) if '==' in name.split('<')[0] else (0 if eq else 1)
+        if name.startswith('__gnu_cxx::__normal_iterator<'):
+            meth = name.split('>::')[-1]
+            if meth in ('operator--', 'operator++'):
+                d = -1 if meth == 'operator--' else 1
+                old = this_cell.value
+                it.write(this_cell, it.ptr_add(old, d), node)
+                return old if args else this_cell  # postfix has the dummy int argument
+            if meth == 'operator*':
+                return it.deref(this_cell.value, node)
+            if meth == '__normal_iterator':
+                if args:
+                    v = it.lval(args[0]).value if (args[0].get('lv') or args[0].get('xv')) else it.eval(args[0])
+                    this_cell.value = v
+                return None
+            if meth == 'base':
+                return this_cell
+        if name.startswith('__gnu_cxx::operator-') and len(args) == 2:
+            a = it.lval(args[0]).value if (args[0].get('lv') or args[0].get('xv')) else it.eval(args[0])
+            b = it.lval(args[1]).value if (args[1].get('lv') or args[1].get('xv')) else it.eval(args[1])
+            return a.off - b.off
+        if name.startswith('std::_Bit_reference::operator='):
+            v = it.eval(args[0])
+            it.write(this_cell, 1 if v else 0, node)
+            return this_cell
+        if name == 'printf':
+            return 0
         if name.split('<')[0] == 'std::swap' and len(args) == 2:
             a, b = it.lval(args[0]), it.lval(args[1])
             va, vb = a.value, b.value
